@@ -47,7 +47,7 @@ class World:
     PROBES_EXPECTED = ["mixed-kinds", "const-task", "const-sum-task", "empty-sum-task", "zero-shot-task", "measurable-task", "no-measurable",
                        "over-delivery", "peer-fault", "tracker-runner", "tagged-runner", "symbolic-runner", "exact-step", "bind-step",
                        "empty-task-list", "disk-fault", "exact-zero-shot-task", "bind-shared-circuit", "duplicate-tasks",
-                       "bind-idle-upper-qubits", "recycled-result-object"]
+                       "bind-idle-upper-qubits", "recycled-result-object", "peer-declines-batches"]
 
     def gen_plan(self, seed, tier):
         r = random.Random(seed)
@@ -93,7 +93,7 @@ class World:
                         tasks.insert(r.randrange(len(tasks) + 1), copy.deepcopy(r.choice(tasks)))
                 s = {"op": "estimate", "args": {"runner": r.randrange(8), "tasks": tasks}}
                 if r.random() < pf:
-                    s["fault"] = r.choice([{"kind": "peer", "at": r.randrange(0, 4)},
+                    s["fault"] = r.choice([{"kind": "peer", "at": r.randrange(0, 4)}, {"kind": "peer", "at": 0, "how": "no-batch"},
                                            {"kind": r.choice(["enospc", "eio", "eacces", "eio_close"]), "at": r.randrange(0, 5), "frac": r.random()}])
             elif op == "exact":
                 tasks = []
@@ -212,7 +212,9 @@ class World:
         if base["spec"]["kind"] == "shot":
             base["obj"].arm(step["rs"], f["at"] if f and f["kind"] == "peer" else None)
         elif base["spec"]["kind"] == "tagged":
-            base["obj"].fail_next = bool(f and f["kind"] == "peer")
+            base["obj"].fail_next = bool(f and f["kind"] == "peer" and f.get("how") != "no-batch")
+            base["obj"].batch_unsupported = bool(f and f["kind"] == "peer" and f.get("how") == "no-batch")
+        no_batch = base["spec"]["kind"] == "tagged" and base["obj"].batch_unsupported
         st["rng"].begin_step(step["rs"])
         st["fs"].begin_call(f if f and f["kind"] != "peer" and kind == "tracker" else None)
         mark = len(R["requests"])
@@ -223,6 +225,7 @@ class World:
             base["obj"].fail_at = None
         elif base["spec"]["kind"] == "tagged":
             base["obj"].fail_next = False
+            base["obj"].batch_unsupported = False
         for x in fired:
             ctx.fault(x[0])
         ctx.called("estimate_expectation_values_by_averaging")
@@ -232,6 +235,13 @@ class World:
             ctx.probe("peer-fault")
             ctx.log("estimate", "peer-fault", _sig=sig)
             return
+        if no_batch and measurable:
+            ctx.fault("peer-fault")
+            ctx.probe("peer-declines-batches")
+            if not ok:  # whichever exception reports it
+                ctx.log("estimate", "peer-declined-batch", _sig=sig)
+                return
+            # (an estimator that copes by running the circuits one by one is fine - its answers are judged below)
         if not ok and fired and isinstance(res, OSError):
             ctx.probe("disk-fault")
             ctx.log("estimate", "disk-fault", _sig=sig)
@@ -245,6 +255,8 @@ class World:
         with judge(ctx):
             if not measurable:
                 ctx.check(not reqs, "order", "runner-called-without-measurable-task", f"runner was called {len(reqs)} times although no task is measurable")
+            elif no_batch:
+                pass  # how a coping estimator talks to a peer without batch support is its own business
             else:
                 ctx.check(len(reqs) == 1, "order", "request-count", f"{len(reqs)} batch requests for one estimate call")
                 cs, ns = reqs[0]
